@@ -238,6 +238,13 @@ def r_delegation(F, R):
         ctx = Ctx(b)
         rets = [strip_bb(tree(ctx, o)) for o in ctx.org.local(0)]
         if b.name == "size_hint":
+            def retuple(t):
+                # `let (lo, hi) = x.size_hint(); (lo, hi)`: the pair taken apart and put together again
+                if t[0] == "agg" and t[1] == "tuple" and t[2] and all(
+                        c[0] == "call" and c[:3] == t[2][0][:3] and tuple(c[3]) == ("f:%d" % i,) for i, c in enumerate(t[2])):
+                    return ("call", t[2][0][1], t[2][0][2], ())
+                return t
+            rets = [retuple(t) for t in rets]
             ok = rets == [("call", ("Iterator", "size_hint"), (place(b, "f:inner"),), ())]
             R.check("R-ITER", b.label(), ok, construct="size_hint = inner.size_hint()", where=b.where(),
                     detail="returns %s" % [show(t) for t in rets])
